@@ -28,6 +28,15 @@ SINGLE = [i for i in range(40) if i not in MULTI]
 def J(harness, params=None, **kw):
     d = dict(harness=harness, params=params or {})
     d.update(kw)
+    # scheduling only: the hanzi / hangul windows of the encoder jobs are the longest jobs of their checks (the crate's
+    # lookups scan thousands of table entries per candidate value); start them first instead of leaving them as the tail
+    if "small_index_fork" in kw and d["params"].get(4) in (0x4E00, 0xAC00) and not d["params"].get(3):
+        d["weight"] = 50
+    # the shard of complete four-byte UTF-8 sequences (decoder harnesses: params 1/2 = byte count range, 5/6 = first-byte range):
+    # exactly four symbolic bytes - the shorter streams with these leads are in the N <= 3 shards
+    if d["params"].get(5) == 0xF0 and d["params"].get(6) == 0xF4 and d["params"].get(2) == 4 and d["params"].get(1) == 1:
+        d["params"][1] = 4
+        d["weight"] = 60
     return d
 
 
@@ -170,6 +179,18 @@ def c01_jobs(tier, seed):
                 if q and not full and pre > 5:
                     continue
                 add("ISO-2022-JP", 0, 3 if (full or not q) else 2, sink, repl, pre=pre, need=[9999], weight=60)
+    # escape, one symbolic byte, a second concrete escape, then symbolic bytes: the Standard's "output flag" (an escape directly after
+    # an escape is an error; after any output OR error byte it is not) in every state
+    k = 0
+    for pre in (1, 2, 3, 4, 5):
+        for mid in (1, 2, 3, 5, 9, 11):
+            if q and mid in (2, 9, 11) and pre not in (3, 5):
+                continue
+            for (sink, repl) in ([(k % 2, (k // 2) % 2)] if q else [(0, 0), (0, 1), (1, 0), (1, 1)]):
+                jl.append(J("se_h_c01_decode", {0: E["ISO-2022-JP"], 1: 1, 2: 2 if q else 3, 3: sink, 4: repl, 5: 0, 6: 255, 7: pre, 8: mid},
+                            label="ISO-2022-JP prefix=%d, one symbolic byte, escape %d, n<=%d more; sink=%s repl=%d" % (pre, mid, 1 if q else 2, ("utf16", "utf8")[sink], repl),
+                            need=[9999], weight=60))
+            k += 1
     for j in jl:
         j["time_budget"] = 900 if q else 3000
     return jl
@@ -215,7 +236,8 @@ def c02_jobs(tier, seed):
         nd = [9999] + list(need)
         jl.append(J("se_h_c02_chunk", {0: E[enc], 1: n0, 2: n1, 3: sink, 4: repl, 5: lo, 6: hi, 7: pre, 8: bom, 9: cmin, 10: cmax, 11: ncuts, 12: el,
                                        13: 2 if q else 3},
-                    label="%s n=%d..%d sink=%s repl=%d first=%02X..%02X prefix=%d regime=%s" % (enc, n0, n1, SINKS[sink], repl, lo, hi, pre, regime),
+                    label="%s n=%d..%d sink=%s repl=%d first=%02X..%02X prefix=%d regime=%s%s" % (enc, n0, n1, SINKS[sink], repl, lo, hi, pre, regime,
+                                                                                                  ("", " BOM removal", " BOM sniffing")[bom]),
                     need=nd, weight=weight, time_budget=900 if q else 3000))
 
     third = rnd.choice([(2, 0), (3, 1)])
@@ -272,6 +294,25 @@ def c02_jobs(tier, seed):
                 add("ISO-2022-JP", 0 if lo == 0 else 1, 3, s, r, lo, hi, 0, g, weight=40)
             for pre in ((4, 5, 8, 13) if q else range(1, 15)):
                 add("ISO-2022-JP", 0, 2 if q else 3, s, r, 0, 255, pre, g, weight=40)
+    # the BOM-handling front end (removal, sniffing) withholds and replays bytes across calls: the same chunking invariance with the
+    # first byte in the shard that contains the BOM leads (EF / FE / FF), for every decoder family
+    bconf = [(0, 0), (1, 1)] if q else [(s, r) for s in range(4) for r in (0, 1)]
+    bregs = ("B", "C") if q else regimes
+    for enc in ("windows-1252", "windows-874", "x-user-defined", "UTF-8", "UTF-16LE", "UTF-16BE", "EUC-KR", "Big5", "gb18030", "Shift_JIS", "ISO-2022-JP"):
+        cjk = enc in ("EUC-KR", "Big5", "gb18030", "Shift_JIS")
+        if enc == "UTF-8":
+            rs = [(0xE8, 0xEF)]
+        elif enc in ("UTF-16LE", "UTF-16BE"):
+            rs = [(0xC0, 0xFF)]
+        elif cjk:
+            rs = [sh for sh in lead_shards(enc, 16) if sh[0] <= 0xEF <= sh[1]]
+        else:
+            rs = [(0xE0, 0xFF)]
+        for bom in ((2,) if (q and (cjk or enc == "ISO-2022-JP")) else (1, 2)):
+            for (s, r) in bconf:
+                for g in bregs:
+                    for (lo, hi) in rs:
+                        add(enc, 1, 4 if enc.startswith("UTF-16") else 3, s, r, lo, hi, 0, g, bom=bom, weight=30 if cjk else 12)
     # UTF-8 vs UTF-16 output forms denote the same scalars
     for i in range(40):
         enc = ENC_NAMES[i]
@@ -436,6 +477,13 @@ def c03_jobs(tier, seed):
         for (b, lo, hi) in planes:
             for (s, r) in ([(0, 0), (1, 1)] if q else [(s, r) for s in (0, 1) for r in (0, 1)]):
                 add(enc, s, r, b, lo, hi, weight=10)
+    # astral characters whose low 16 bits are a mappable BMP character (a truncating cast would alias them), in every encoder state
+    for enc in CJK_ENC:
+        for (lo, hi) in ([(0x3000, 0x30FF), (0x4E00, 0x4EFF)] if q else [(0x3000, 0x33FF), (0x4E00, 0x51FF), (0xAC00, 0xAFFF), (0xFF00, 0xFFEF)]):
+            for (base, before) in ([(0x10000, 0), (0x20000, 0), (0xF0000, 0)] if enc != "ISO-2022-JP" else [(0x10000, 1), (0x10000, 2), (0x10000, 4), (0x10000, 5), (0xF0000, 2), (0x100000, 2)]):
+                if q and enc != "ISO-2022-JP" and base != 0x10000:
+                    continue
+                add(enc, (before + lo // 0x100) % 2, (before // 2) % 2, base, lo, hi, before, 1 if enc == "ISO-2022-JP" else 0, weight=10)
     # state transitions: neighbours before and after (ISO-2022-JP states; gb18030/GBK euro and four-byte forms)
     nb = range(0, 12)
     for enc in ("ISO-2022-JP",):
@@ -523,6 +571,13 @@ def c04_jobs(tier, seed):
         for g in ("A", "B", "C"):
             add(enc, 0, 1, 0, 0, 0x07C0, 0x083F, 1, 6, 0, 2, g)
             add(enc, 1, 0, 1, 0x10000, 0, W, 4, 1, 1, 0, g)
+            # the edges of the surrogate ranges, read from UTF-16 in the chunked run at capacities min..min+2 after a 0..2 unit
+            # ASCII prefix: low surrogates up to DFFF under the first high surrogate, and DBFF DFxx (the last plane)
+            add(enc, 0, 1, 0, 0x10000, 0x03C0, 0x03FF, 1, 1, 0, 2, g)
+            add(enc, 0, 1, 0, 0x100000, 0xFFC0, 0xFFFF, 1, 1, 0, 2, g)
+    for g in ("A", "B", "C"):
+        add("windows-1252", 0, 1, g != "A", 0x100000, 0xFFF0, 0xFFFF, 1, 1, 0, 2, g)
+        add("windows-1252", 0, 1, g == "A", 0x10000, 0x03F0, 0x03FF, 1, 1, 0, 2, g)
     wins = {"Big5": [0x4E00, 0x2550], "EUC-KR": [0xAC00, 0x4E00], "Shift_JIS": [0x3040, 0xFF60, 0x2200], "EUC-JP": [0x3040, 0xFF60, 0x2200],
             "GBK": [0x4E00, 0x20A0, 0xE780], "gb18030": [0x4E00, 0x20A0, 0xE780, 0x0080], "ISO-2022-JP": [0x3040, 0xFF60, 0x2200, 0x0000, 0x4E00]}
     for enc, ws in wins.items():
@@ -587,6 +642,10 @@ def c12_jobs(tier, seed):
                 add(enc, (k + j) % 2, 0, w, w + ww, b, a, (k + j) % 2 if (k + j) % 2 == 0 else 0, 14, 16 if j % 2 == 0 else 14)
         add(enc, 1, 0x10000, 0, 0xFF, 1, 1, 0, 14, 15)
         add(enc, 0, 0x20000, 0, 0xFF, 4, 0, 1, 14, 14)
+        # astral characters whose low 16 bits are a mappable BMP character, after ASCII / Roman / kana / kanji
+        for jj, b in enumerate((1, 2, 4, 5) if enc == "ISO-2022-JP" else (1,)):
+            for (base, lo) in (((0x10000, 0x3000), (0xF0000, 0x4E00)) if not q or enc == "ISO-2022-JP" else ((0x10000, 0x4E00),)):
+                add(enc, jj % 2, base, lo, lo + (0xFF if lo == 0x3000 else 0x3F), b, 1, 0, 14, 16 if jj % 2 else 14)
     for i in ([E["windows-1252"], E["x-user-defined"], E["UTF-8"], E["UTF-16BE"], E["replacement"], rnd.choice(SINGLE)] if q else
               SINGLE + [E["x-user-defined"], E["UTF-8"], E["UTF-16LE"], E["UTF-16BE"], E["replacement"]]):
         enc = ENC_NAMES[i]
@@ -623,6 +682,8 @@ def dec_shapes(tier, seed):
     for enc in dict.fromkeys(singles + ["x-user-defined", "replacement"]):
         out.append((enc, 3, [(0, 255)], [0]))
     out.append(("UTF-8", 3 if q else 4, UTF8_RANGES, [0]))
+    # complete four-byte sequences (N = 4, leads F0..F4), alone and behind one ASCII byte
+    out.append(("UTF-8", 4, [(0xF0, 0xF4)], [15] if q else [0, 15]))
     out.append(("UTF-16LE", 4, Q_RANGES, [0]))
     out.append(("UTF-16BE", 4 if not q else 3, Q_RANGES if not q else [(0xD8, 0xDF), (0, 0xD7)], [0]))
     for enc in ("Big5", "EUC-KR", "Shift_JIS", "EUC-JP", "GBK", "gb18030"):
@@ -636,6 +697,27 @@ def dec_shapes(tier, seed):
         out.append((enc, 3, pick, [0]))
     out.append(("ISO-2022-JP", 3, [(0, 0x1A), (0x1B, 0x1B), (0x1C, 0xFF)], [0]))
     out.append(("ISO-2022-JP", 2 if q else 3, [(0, 255)], [4, 5, 8, 13] if q else list(range(1, 15))))
+    return out
+
+
+def bom_shapes(tier):
+    """(encoding, first-byte range containing the BOM leads, n, BOM mode) for the decoder front end that withholds EF / EF BB / FE / FF
+    at the end of a buffer and replays them: every decoder family, sniffing (2) and removal (1)"""
+    q = tier == "quick"
+    out = []
+    for enc in ("windows-1252", "windows-874", "x-user-defined", "UTF-8", "UTF-16LE", "UTF-16BE", "EUC-KR", "Big5", "gb18030", "Shift_JIS", "ISO-2022-JP", "replacement"):
+        cjk = enc in ("EUC-KR", "Big5", "gb18030", "Shift_JIS")
+        if enc == "UTF-8":
+            rs = [(0xE8, 0xEF)]
+        elif enc in ("UTF-16LE", "UTF-16BE"):
+            rs = [(0xC0, 0xFF)]
+        elif cjk:
+            rs = [sh for sh in lead_shards(enc, 16) if sh[0] <= 0xEF <= sh[1]]
+        else:
+            rs = [(0xE0, 0xFF)]
+        for bom in ((2,) if (q and enc not in ("UTF-8", "UTF-16LE", "UTF-16BE")) else (1, 2)):
+            for (lo, hi) in rs:
+                out.append((enc, lo, hi, 4 if enc.startswith("UTF-16") else 3, bom))
     return out
 
 
@@ -657,8 +739,12 @@ def enc_shapes(tier, seed):
         nbs = [(1, 5), (4, 1), (2, 4), (6, 9), (5, 5)] if enc == "ISO-2022-JP" else [(1, 5), (4, 1)]
         for w in ws:
             for (b, a) in nbs:
-                out.append((enc, 0, w, w + W, b, a, 1))
+                # quick: the GBK / gb18030 hanzi window is halved (each value costs a scan of the 6763-entry GB2312 table)
+                out.append((enc, 0, w, w + (0x1F if (q and w == 0x4E00 and enc in ("GBK", "gb18030")) else W), b, a, 1))
         out.append((enc, 0x20000, 0, 0xF, 1, 1, 3))
+    # astral characters whose low 16 bits are a mappable BMP character, after Roman / kana (ISO-2022-JP) or plain (others)
+    for (enc, b) in (("ISO-2022-JP", 2), ("ISO-2022-JP", 4), ("Shift_JIS", 1), ("gb18030", 1)):
+        out.append((enc, 0x10000, 0x3040, 0x3040 + 0x3F, b, 1, 0))
     # the length ladder of numeric character references: code points around 10^3, 10^4, 10^5, 10^6
     for enc in ("windows-1252", "Shift_JIS", "ISO-2022-JP", "Big5", "EUC-KR"):
         for (base, lo) in ((0, 0x03E0), (0, 0x2708), (0x10000, 0x8698), (0xF0000, 0x4238)):
@@ -684,6 +770,13 @@ def c08_jobs(tier, seed):
                                                          11: 1 if q else 2, 12: 1},
                                         label="decode %s n<=%d first=%02X..%02X prefix=%d sink=%s repl=%d bom=%d cap=%d" % (enc, nmax, lo, hi, pre, SINKS[s], r, bom, cap),
                                         need=[9999], weight=30, time_budget=900 if q else 3000))
+    for i, (enc, lo, hi, n, bom) in enumerate(bom_shapes(tier)):
+        for (s, r) in ([(0, 0), (1, 1)] if q else [(s, r) for s in range(4) for r in (0, 1)]):
+            mn = 2 if s == 0 else 4
+            for cap in ((mn,) if q else (mn, mn + 1)):
+                jl.append(J("se_h_c08_dec", {0: E[enc], 1: 1, 2: n, 3: s, 4: r, 5: lo, 6: hi, 7: 0, 8: bom, 9: cap, 11: 1 if q else 2, 12: 1},
+                            label="decode %s behind BOM %s n<=%d first=%02X..%02X sink=%s repl=%d cap=%d" % (enc, ("", "removal", "sniffing")[bom], n, lo, hi, SINKS[s], r, cap),
+                            need=[9999], weight=30, time_budget=900 if q else 3000))
     for i, (enc, base, lo, hi, b, a, pfx) in enumerate(enc_shapes(tier, seed)):
         for repl in (0, 1):
             mn = 14 if repl else 4
@@ -729,9 +822,18 @@ def c09_jobs(tier, seed):
                                         label="decode %s n<=%d first=%02X..%02X prefix=%d sink=%s bom=%d cap(replacing run)=%d" % (enc, nmax, lo, hi, pre, SINKS[s], bom, cap),
                                         need=[9999], weight=30, time_budget=900 if q else 3000))
                 k += 1
+    for i, (enc, lo, hi, n, bom) in enumerate(bom_shapes(tier)):
+        for s in ((i % 2,) if q else (0, 1, 2, 3)):
+            for cap in ((56,) if (q and i % 3) else (56, 2 if s == 0 else 4)):
+                jl.append(J("se_h_c09_dec", {0: E[enc], 1: 1, 2: n, 3: s, 5: lo, 6: hi, 7: 0, 8: bom, 9: cap, 11: 1 if q else 2},
+                            label="decode %s behind BOM %s n<=%d first=%02X..%02X sink=%s cap(replacing run)=%d" % (enc, ("", "removal", "sniffing")[bom], n, lo, hi, SINKS[s], cap),
+                            need=[9999], weight=30, time_budget=900 if q else 3000))
     for i, (enc, base, lo, hi, b, a, pfx) in enumerate(enc_shapes(tier, seed)):
-        form = i % 2
-        for cap in ((60, 14) if not q else ((60,) if i % 2 else (14,))):
+        cheap = E[enc] in SINGLE or enc in ("x-user-defined", "UTF-8", "UTF-16LE", "replacement") or hi - lo <= 0xF
+        # source form and capacity of the replacing run are varied independently (they were perfectly correlated in the quick
+        # tier once: UTF-16 input never met the small capacity); cheap shapes run all four combinations
+        combos = [(f, c) for f in (0, 1) for c in (60, 14)] if (cheap or not q) else [(i % 2, 14 if (i // 2) % 2 == 0 else 60)]
+        for (form, cap) in combos:
             jl.append(J("se_h_c09_enc", {0: E[enc], 1: form, 3: base, 4: lo, 5: hi, 6: b, 7: a, 8: 0, 9: pfx, 11: 2, 12: cap},
                         label="encode %s from %s U+%04X..U+%04X nb=%d,%d prefix<=%d cap(replacing run)=%d" % (enc, ("utf8", "utf16")[form], base + lo, base + hi, b, a, pfx, cap),
                         need=[9999], weight=15, small_index_fork=64, time_budget=900 if q else 3000))
@@ -895,6 +997,23 @@ def c15_jobs(tier, seed):
                 jl.append(J("se_h_c15_from16", {0: f, 1: nmax, 2: pre, 3: delta}, label="%s: %d ASCII + n<=%d symbolic units, dst = sufficient+%d%s" % (
                     name, pre, nmax, delta, " (partial: every dst length 0..=sufficient+1)" if partial else ""), need=[9999],
                     weight=(40 if partial else 10) + pre, time_budget=900 if q else 3000))
+    # a concrete two-, three- or four-byte character (one BMP unit / a surrogate pair) between the filler and the symbolic tail: the
+    # loops re-enter their "next lead" logic differently after each sequence length; n <= 4 so that a whole astral character fits the tail
+    LATIN1_ONLY = ("convert_utf8_to_latin1_lossy", "convert_utf16_to_latin1_lossy", "encode_latin1_lossy")
+    ASCII_ONLY = ("copy_ascii_to_ascii", "copy_ascii_to_basic_latin", "copy_basic_latin_to_ascii")
+    for (names, h) in ((F8, "se_h_c15_from8"), (F16, "se_h_c15_from16")):
+        for f, name in enumerate(names):
+            if name in ASCII_ONLY or name.startswith("convert_latin1") or name == "decode_latin1":
+                continue            # byte-wise functions: no multi-unit sequences
+            partial = "partial" in name
+            for lead in ((1,) if name in LATIN1_ONLY else (1, 2, 3)):
+                for pre in ((0, 14) if q else (0, 1, 13, 14, 15, 16)):
+                    if q and partial and pre:
+                        continue
+                    nmax = 3 if (partial or h == "se_h_c15_from16") else 4
+                    jl.append(J(h, {0: f, 1: nmax, 2: pre, 3: 0, 4: lead}, label="%s: %d ASCII + a concrete %s + n<=%d symbolic units, dst = sufficient" % (
+                        name, pre, ("", "two-byte character", "three-byte character", "astral character")[lead], nmax), need=[9999],
+                        weight=(40 if partial else 20) + pre, time_budget=900 if q else 3000))
     return jl
 
 
@@ -1127,9 +1246,33 @@ def c06_jobs(tier, seed):
         if q and j["params"][2] not in (0, 16):
             continue
         jl.append(dict(j))
+    # destinations BELOW the documented minimum (0..min-1 units, symbolic): the calls may stall or panic, but must stay inside the
+    # buffers they were given and honour read <= src.len(), written <= dst.len()
+    n = 0
+    for j in c08_jobs(tier, seed):
+        dec = j["harness"] == "se_h_c08_dec"
+        if j["harness"] not in ("se_h_c08_dec", "se_h_c08_enc"):
+            continue
+        n += 1
+        capk = 9 if dec else 12
+        mn = (2 if j["params"][3] == 0 else 4) if dec else (14 if j["params"][2] else 4)
+        if j["params"][capk] != mn or (q and n % 2):
+            continue
+        if not dec and ENC_NAMES[j["params"][0]] in ("GBK", "gb18030", "EUC-KR", "Big5") and j["params"][4] in (0x4E00, 0xAC00):
+            continue                      # the slow hanzi / hangul windows add nothing here: the space checks do not depend on the table hit
+        k = dict(j)
+        k["params"] = dict(j["params"])
+        k["params"][13] = 4
+        k["params"][capk] = mn - 1
+        if dec:
+            k["params"][14] = 0
+        k["label"] = "[destination below the documented minimum: 0..%d units] %s" % (mn - 1, j["label"])
+        k["tolerate_panic"] = True
+        k["need"] = [9999]
+        jl.append(k)
     # debug-assertions + overflow-checks build: crate debug_assert!s and core's unsafe-precondition checks become reachable panics
     rnd = random.Random(seed)
-    base = [j for j in jl if j["harness"] in ("se_h_c08_dec", "se_h_c08_enc") and ENC_NAMES[j["params"][0]] in
+    base = [j for j in jl if j["harness"] in ("se_h_c08_dec", "se_h_c08_enc") and not j.get("tolerate_panic") and ENC_NAMES[j["params"][0]] in
             ("windows-1252", "UTF-8", "UTF-16LE", "Big5", "gb18030", "ISO-2022-JP", "Shift_JIS", "EUC-KR", "x-user-defined")]
     for j in (rnd.sample(base, min(len(base), 40)) if q else base):
         k = dict(j)
@@ -1146,7 +1289,7 @@ def c06_jobs(tier, seed):
 
 
 PROPS["C06"] = dict(
-    cfgs=["verif_c08", "verif_c15"], level="model_checking", jobs=c06_jobs, need_global=[30, 36],
+    cfgs=["verif_c08", "verif_c15"], level="model_checking", jobs=c06_jobs, need_global=[30, 36, 37],
     irs={"release": ("release", "std"), "checked": ("checked", "std")},
     explanation=("Memory safety and the read/written contract are built-in checks of the executor on EVERY path of EVERY harness of every property: each load, store, memcpy and memset "
                  "must lie inside a live object (symbolic offsets are decided by z3), no write to a constant, no 'unreachable', every llvm.assume implied by the path condition, no "
@@ -1174,16 +1317,26 @@ def c18_jobs(tier, seed):
         for pre in pres:
             for (lo, hi) in ranges:
                 # slice sinks only: arbitrary symbolic bytes are not a valid prior content of a &mut str (its pre-fills are C05's subject)
+                if (lo, hi) == (0xF0, 0xF4):
+                    n1 = nmax                     # the shard of complete four-byte UTF-8 sequences
                 for (s, r) in ([(k % 2, (k // 2) % 2)] if q else [(s, r) for s in range(2) for r in (0, 1)]):
                     mn = 2 if s == 0 else 4
                     jl.append(J("se_h_c18_dec", {0: E[enc], 1: 0 if lo == 0 else 1, 2: n1, 3: s, 4: r, 5: lo, 6: hi, 7: pre, 8: 0 if k % 3 else 2, 9: mn + k % 2, 11: 1},
                                 label="decode %s n<=%d first=%02X..%02X prefix=%d sink=%s repl=%d cap=%d, twin symbolic pre-fills" % (enc, n1, lo, hi, pre, SINKS[s], r, mn + k % 2),
                                 need=[9999], weight=30, time_budget=900 if q else 3000))
                 k += 1
+    for i, (enc, lo, hi, n, bom) in enumerate(bom_shapes(tier)):
+        for (s, r) in ([(i % 2, (i // 2) % 2), ((i + 1) % 2, (i // 2) % 2)] if q else [(s, r) for s in range(2) for r in (0, 1)]):
+            mn = 2 if s == 0 else 4
+            for cap in ((mn + i % 2,) if q else (mn, mn + 1, mn + 3)):
+                jl.append(J("se_h_c18_dec", {0: E[enc], 1: 1, 2: n, 3: s, 4: r, 5: lo, 6: hi, 7: 0, 8: bom, 9: cap, 11: 1},
+                            label="decode %s behind BOM %s n<=%d first=%02X..%02X sink=%s repl=%d cap=%d, twin symbolic pre-fills" % (
+                                enc, ("", "removal", "sniffing")[bom], n, lo, hi, SINKS[s], r, cap),
+                            need=[9999], weight=30, time_budget=900 if q else 3000, **({"mem_gb": 10} if enc == "gb18030" else {})))
     LADDER = ((0, 0x03E0), (0, 0x2708), (0x10000, 0x8698), (0xF0000, 0x4238))
     for i, (enc, base, lo, hi, b, a, pfx) in enumerate(enc_shapes(tier, seed)):
         # the NCR length-ladder windows exist for the with-replacement path: always run them with replacement
-        for repl in ((1,) if (base, lo) in LADDER else (i % 2,) if q else (0, 1)):
+        for repl in ((1,) if (base, lo) in LADDER else ((i // 2) % 2,) if q else (0, 1)):     # independent of the source form (i % 2)
             jl.append(J("se_h_c18_enc", {0: E[enc], 1: i % 2, 2: repl, 3: base, 4: lo, 5: hi, 6: b, 7: a, 9: min(pfx, 3), 12: (14 if repl else 4) + i % 3},
                         label="encode %s from %s repl=%d U+%04X..U+%04X nb=%d,%d, twin symbolic pre-fills" % (enc, ("utf8", "utf16")[i % 2], repl, base + lo, base + hi, b, a),
                         need=[9999], weight=10, small_index_fork=64, time_budget=900 if q else 3000))
@@ -1238,11 +1391,35 @@ def c19_jobs(tier, seed):
                 jl.append(J("se_h_c19_mid", {0: E[enc], 1: 1 if lo else 0, 2: n1, 5: lo, 6: hi, 7: pre, 8: 0},
                             label="%s: query right after the first Malformed return, stream n<=%d first=%02X..%02X prefix=%d" % (enc, n1, lo, hi, pre), need=[9999], weight=30,
                             time_budget=900 if q else 3000, **({"mem_gb": 10} if enc in ("gb18030", "GBK") else {})))
+    # the same query point behind the BOM front end (which withholds EF / EF BB / FE / FF at the end of a buffer and replays them),
+    # and the other kind of mid-buffer return: OutputFull at a minimum-size destination.  The stream is cut at a symbolic point.
+    for enc in ("windows-1252", "x-user-defined", "ISO-2022-JP", "UTF-8", "Shift_JIS", "EUC-KR", "Big5", "gb18030", "UTF-16LE", "UTF-16BE", "replacement"):
+        cjk = enc in ("Shift_JIS", "EUC-KR", "Big5", "gb18030")
+        if enc == "UTF-8":
+            rs = [(0xE8, 0xEF)]
+        elif enc.startswith("UTF-16"):
+            rs = [(0xC0, 0xFF)]
+        elif cjk:
+            rs = [sh for sh in lead_shards(enc, 16) if sh[0] <= 0xEF <= sh[1]]
+        else:
+            rs = [(0xE0, 0xFF)]
+        for bom in ((2,) if q and enc != "UTF-8" else (1, 2)):
+            for cap in (2, 0):                # 2 UTF-16 units = the documented minimum (below it the BOM replay may panic, as documented)
+                for (lo, hi) in rs:
+                    jl.append(J("se_h_c19_mid", {0: E[enc], 1: 1, 2: 3, 5: lo, 6: hi, 7: 0, 8: bom, 9: cap, 10: 1},
+                                label="%s behind BOM %s: query right after the first Malformed / OutputFull return, n<=3 first=%02X..%02X cut anywhere, %s destination" % (
+                                    enc, ("", "removal", "sniffing")[bom], lo, hi, "minimum-size" if cap else "large"),
+                                need=[9999], weight=30, time_budget=900 if q else 3000, **({"mem_gb": 10} if enc == "gb18030" else {})))
+    # OutputFull returns without BOM handling (minimum-size destination): pending second halves (astral pair, Big5 two-code-point sequences)
+    for (enc, lo, hi, n1) in (("UTF-8", 0xF0, 0xF4, 4), ("Big5", 0x87, 0x8E, 3), ("gb18030", 0x90, 0x97, 4), ("UTF-16LE", 0x00, 0xFF, 4), ("windows-1252", 0x80, 0xFF, 3)):
+        jl.append(J("se_h_c19_mid", {0: E[enc], 1: 1, 2: n1, 5: lo, 6: hi, 7: 0, 8: 0, 9: 2, 10: 1},
+                    label="%s: query right after the first OutputFull / Malformed return at a minimum-size (2-unit) destination, n<=%d first=%02X..%02X" % (enc, n1, lo, hi),
+                    need=[9999], weight=30, time_budget=900 if q else 3000, **({"mem_gb": 10} if enc == "gb18030" else {})))
     return jl
 
 
 PROPS["C19"] = dict(
-    cfgs=["verif_c19"], level="model_checking", jobs=c19_jobs, need_global=[60, 61, 62, 63, 64, 65, 66],
+    cfgs=["verif_c19"], level="model_checking", jobs=c19_jobs, need_global=[60, 61, 62, 63, 64, 65, 66, 67],
     explanation=("A real decoder and three twins are brought into the same reachable state by a symbolic prefix (pushed with last=false; BOM modes off and sniffing; ISO-2022-JP also after "
                  "concrete escape prefixes). latin1_byte_compatible_up_to is then called on a buffer of k ASCII bytes, a window of two symbolic bytes and up to two more ASCII bytes. "
                  "None is only accepted if a twin's end-of-stream flush shows something pending, the decoder is still waiting for a BOM, the encoding in use is never compatible, or it "
@@ -1266,7 +1443,7 @@ def c11_jobs(tier, seed):
     rnd = random.Random(seed)
     API = ("decode", "decode_with_bom_removal", "decode_without_bom_handling", "decode_without_bom_handling_and_without_replacement")
     if q:
-        encs = ["UTF-8", "windows-1252", "ISO-2022-JP", "UTF-16LE", "Big5", "gb18030", "Shift_JIS", "replacement", "x-user-defined", ENC_NAMES[rnd.choice(SINGLE)]]
+        encs = ["UTF-8", "windows-1252", "ISO-2022-JP", "UTF-16LE", "UTF-16BE", "Big5", "gb18030", "Shift_JIS", "replacement", "x-user-defined", ENC_NAMES[rnd.choice(SINGLE)]]
         shapes = [(4, 0), (9, 3), (20, 16), (24, 21), (63, 60), (64, 61), (65, 63), (66, 62)]
     else:
         encs = list(ENC_NAMES)
@@ -1275,8 +1452,8 @@ def c11_jobs(tier, seed):
         cjk = enc in ("Big5", "EUC-KR", "Shift_JIS", "EUC-JP", "GBK", "gb18030")
         for api in range(4):
             for k, (l, p) in enumerate(shapes):
-                if q and (k + api) % 2 and l not in (64, 65):
-                    continue
+                if q and (k + api) % 2 and l not in (64, 65) and not (p == 0 and api in (0, 1)):
+                    continue          # (the window at the very start is where the BOM-handling entry points differ: never thinned out)
                 w = 2 if (cjk or (enc == "UTF-8" and p < 3)) else 3
                 jl.append(J("se_h_c11_decode", {0: E[enc], 1: api, 2: l, 3: min(p, l - w), 4: w},
                             label="%s.%s: %d bytes = ASCII with %d symbolic bytes at %d" % (enc, API[api], l, w, min(p, l - w)), need=[9999], weight=20 + l // 4,
